@@ -50,14 +50,39 @@ def uniq(behaviours):
     return out
 
 
+CHUNK = int(os.environ.get("VERIF_CC_CHUNK", "150000"))  # trace lines per monitor run (sessions are independent: split at "New")
+
+
 def monitor(ctx, trace, nlines, name):
-    mon = ctx.tlc(SPEC, "StreamMonitor.cfg", dfs=True, files={"trace.ndjson": trace}, timeout=1500, heap="8g", name=name)
-    if mon.depth != nlines + 1:
-        raise vlib.Infra("monitor did not consume the whole trace %s (%s of %d)" % (name, mon.depth, nlines))
-    mism = vlib.tuples(mon.out, "MISMATCH")
-    if len(mism) != mon.out.count('"MISMATCH"'):
-        raise vlib.Infra("unparsed MISMATCH lines in monitor output")
-    notes = vlib.tuples(mon.out, "NOTE")
+    """run StreamMonitor on the trace, in chunks cut at session boundaries; line numbers are global (1-based)"""
+    with open(trace) as f:
+        lines = f.readlines()
+    if len(lines) != nlines:
+        raise vlib.Infra("trace %s has %d lines, driver reported %d" % (name, len(lines), nlines))
+    cuts, start = [], 0
+    news = [i for i, l in enumerate(lines) if '"op":"New"' in l]
+    for i in news:
+        if i - start >= CHUNK:
+            cuts.append((start, i))
+            start = i
+    cuts.append((start, len(lines)))
+    mism, notes = [], []
+    for k, (a, b) in enumerate(cuts):
+        part = trace if len(cuts) == 1 else ctx.tmp("%s-part%d.ndjson" % (name, k))
+        if len(cuts) > 1:
+            with open(part, "w") as f:
+                f.writelines(lines[a:b])
+        mon = ctx.tlc(SPEC, "StreamMonitor.cfg", dfs=True, files={"trace.ndjson": part}, timeout=1500, heap="8g",
+                      name="%s-%d" % (name, k))
+        if mon.depth != (b - a) + 1:
+            raise vlib.Infra("monitor did not consume the whole trace %s part %d (%s of %d)" % (name, k, mon.depth, b - a))
+        mm = vlib.tuples(mon.out, "MISMATCH")
+        if len(mm) != mon.out.count('"MISMATCH"'):
+            raise vlib.Infra("unparsed MISMATCH lines in monitor output")
+        for m in mm:
+            m[0] = int(m[0]) + a
+        mism += mm
+        notes += vlib.tuples(mon.out, "NOTE")
     return mism, notes
 
 
@@ -89,7 +114,7 @@ def run(ctx, pid):
     nsim = 260 if quick else 1500
     if len(sim) > nsim:
         sim = ctx.rng.sample(sim, nsim)
-    nexh = 372 if quick else 2000
+    nexh = 372 if quick else 7000
     if len(exh) < 300 or len(sim) < 100:
         raise vlib.Infra("schedule generation produced too little (%d exhaustive, %d random)" % (len(exh), len(sim)))
     exh_all = len(exh)
@@ -136,7 +161,7 @@ def run(ctx, pid):
                 "(TLC BFS of Gen_Stream) plus TLC random walks of 14 environment actions, size classes mapped to concrete byte counts with "
                 "the seeded rng, each executed on none/gzip/zstd/brotli and followed by drain + close + read-to-EOF; non-trivial = has a "
                 "non-empty Write, a Deliver and a Read; plus free-running stress sessions",
-        "exhaustive": True,
+        "exhaustive": len(exh) == exh_all,
         "events_validated": rstats["events"] + sstats["events"], "exhaustive_schedules": len(exh), "exhaustive_schedules_available": exh_all,
         "random_walks": len(sim), "sessions_per_setting": cfgs, "write_sizes_seen": sizes, "read_buffers_seen": bufs,
         "stress_sessions": sstats["sessions"], "stress_bytes": sstats["bytes"],
